@@ -133,7 +133,7 @@ CHECKS = {
             "asyncore dispatchers over loopback TCP against a server thread (Noise responder per connection), with statement-"
             "level yield injection inside the dispatchers and asyncore: the bytes read from the peer's socket must equal, byte "
             "for byte, what the stack handed to the network layer (this also judges the handshake thread's writes against the "
-            "asyncore loop's), every frame must decrypt in counter order and every stanza id arrive exactly once. A quarter of the probe-level runs start their senders during the handshake (a refusal reported to the sender is fine; whatever is accepted must arrive once, in counter order). Stalled-write runs: one sender is held between a frame's length header and its payload for 6.5 s while the keep-alive comes due (fast clock); the ping must wait its turn and the stream stay whole. In 40% of the runs the server double floods the client with frames while its threads send (all must come up in order). Real dispatchers: the peer stops reading, senders pile up output, the connection is dropped (local disconnect or reset) and the same stack connects again: login, exactly-once and socket bytes = bytes handed to the network layer since the reconnect. Threads calling stack.send() on a stack of framing, Noise and coder layers only (no logger layer above the coder), 15% of the writes slow. Over both real dispatchers a stanza larger than the socket buffers while the peer does not read. While threads send on a core stack built without a props argument, other accounts' stacks start their logins.",
+            "asyncore loop's), every frame must decrypt in counter order and every stanza id arrive exactly once. A quarter of the probe-level runs start their senders during the handshake (a refusal reported to the sender is fine; whatever is accepted must arrive once, in counter order). Stalled-write runs: one sender is held between a frame's length header and its payload for 6.5 s while the keep-alive comes due (fast clock); the ping must wait its turn and the stream stay whole. In 40% of the runs the server double floods the client with frames while its threads send (all must come up in order). Real dispatchers: the peer stops reading, senders pile up output, the connection is dropped (local disconnect or reset) and the same stack connects again: login, exactly-once and socket bytes = bytes handed to the network layer since the reconnect. Threads calling stack.send() on a stack of framing, Noise and coder layers only (no logger layer above the coder), 15% of the writes slow. Over both real dispatchers a stanza larger than the socket buffers while the peer does not read. While threads send on a core stack built without a props argument, other accounts' stacks start their logins. A third of the stanzas carry the id the library itself generates on the sending thread (short and long form; yield injection covers the id generator): two stanzas with one id are reported as such.",
             "Trusted: dissononce cipher states of the peer. In the probe-level runs senders start after the handshake (C04 covers the handshake thread's writes there).",
             "DESIGN.md 4/C11"),
     "C14": ("exploration",
